@@ -53,6 +53,15 @@ def request(k, v, std=4):
         if k == "opcode_ctor":
             r = cmds.klass("TestUnitReady")(opc.OpCode("X", v, {}))
             obj = r is not None
+        elif k == "opcode_reuse":
+            prior = [0x00, 0x28, 0x88, 0xA0][v // 256]
+            o = opc.OpCode("X", prior, {})
+            cmds.klass("TestUnitReady")(o)                 # first use, valid
+            mod("pyscsi.pyscsi.scsi_command").SCSICommand.init_cdb(o)
+            o.value = v % 256                              # public setter
+            n = len(mod("pyscsi.pyscsi.scsi_command").SCSICommand.init_cdb(o))
+            r = cmds.klass("TestUnitReady")(o)
+            obj = r is not None
         elif k == "opcode_len":
             mod("pyscsi.pyscsi.scsi_command").SCSICommand.init_cdb(opc.OpCode("X", v, {}))
             obj = True
@@ -127,7 +136,7 @@ def run(chk, replay=None):
     # block size refusals through every constructor, over the whole star
     cases = cc.spec_cases(chk, "c17mc")
     ref = [c for c in cases if c["refuse"]]
-    cc.replay(chk, ref, want)
+    cc.judge(chk, cc.replay(chk, ref, want), want, "c17trc")
     chk.ev.sample({"spec_case": {k: ref[0][k] for k in ("cls", "a", "refuse")}})
     # the request state machine
     r = tlc.run("MC_Refuse", workers=8, coverage=True, name="c17mc2")
